@@ -61,7 +61,15 @@ class Ctx:
 
     # ---------------------------------------------------------- obligations
     def ob(self, rule: str, site, ok: bool, msg: str, key: Optional[str] =
-           None, nontrivial: bool = True, **facts) -> bool:
+           None, nontrivial: bool = True, evidence: bool = True,
+           **facts) -> bool:
+        if not ok and not evidence:
+            # the rule did not find the shape it knows and has no positive
+            # evidence of a deviation either: it declines (exit 2), it does
+            # not report a violation
+            self.undecidable(rule, site, "form not recognised, no evidence "
+                             "of a deviation: " + msg)
+            return False
         if hasattr(site, "where"):
             site = site.where
         elif hasattr(site, "qualname"):
@@ -483,6 +491,7 @@ UNDECIDABLE_SEEDS = (
     "C09v",   # closed-form so3_log next to the vendored code (C09.3)
     "C10u",   # pair search skipped by a precomputed path-length test (C10.6)
     "C10v",   # angle/all-pairs search on one stacked Rotation (C10.8)
+    "C10r",   # greedy search moved into a generic helper of another module
     "C11u",   # motion filter over precomputed candidate arrays (C11.2)
     "C12t",   # statistics computed only for overridden get_statistic (C12.1)
     "C13t",   # merge strategy decided from a size table (C13.2)
